@@ -233,10 +233,11 @@ def unsat_biased_body(g, rng, n_named=4, p_named=0.8, nested=True, histories=Tru
         x = rng.random()
         if x < 0.35:
             return lit()
-        if x < 0.75:
-            return tb.app("or", [lit(), lit()])
         if x < 0.85:
-            return tb.app("and", [lit(), lit()])
+            a1, a2 = rng.sample(atoms, 2) if len(atoms) >= 2 else (atoms[0], atoms[0])
+            l1 = tb.app("not", [a1]) if rng.random() < 0.5 else a1
+            l2 = tb.app("not", [a2]) if rng.random() < 0.5 else a2
+            return tb.app("or" if x < 0.75 else "and", [l1, l2])
         return g.formula(atoms, 1)
     def fresh_name():
         if reintroduce and popped_names and rng.random() < 0.5:
